@@ -1,7 +1,7 @@
 (* C13 property theorems.  Nothing but statements closed by `exact`, a pin, and
    Print Assumptions.  The driver parses this file's output. *)
 From ZV.Common Require Import Base.
-From ZV.C13 Require Import Model ModelIO ModelReader ModelTypes ModelVersioned ModelWriter ModelRun ProofsLeb ProofsZigzag ProofsSeq ProofsIO ProofsReader ProofsTypes ProofsVersioned ProofsWriter.
+From ZV.C13 Require Import Model ModelIO ModelReader ModelTypes ModelVersioned ModelWriter ModelRun ProofsLeb ProofsZigzag ProofsSeq ProofsIO ProofsReader ProofsTypes ProofsVersioned ProofsWriter ProofsStack.
 Open Scope N_scope.
 
 (* decode (encode v ++ rest) = (v, |encode v|): for every u64 and every trailing bytes *)
@@ -301,3 +301,34 @@ Check writers_flushed :
     w_run chunk cap bulk zc ops {| w_dest := []; w_buf := [] |} = Some (outs, st') ->
     w_dest (w_flush st') = w_all_accepted ops outs.
 Print Assumptions writers_flushed.
+
+(* readers stacked on readers: a RangeReader over a cursor, positioned `off` bytes into its range, answers every
+   `read(n)` exactly like a cursor over the range's bytes (`range_slice`) at offset `off`: same bytes, same new
+   offset - for every data, range (also one reaching beyond the data), request size and offset.  A reader
+   stacked on it (StreamBufferedReader<RangeReader<Cursor>>) is that reader's model over the slice *)
+Theorem range_read_is_cursor_read :
+  forall data r_start r_end n off,
+    rng_read data 0 r_end n {| r_ipos := r_start + off; r_cur := r_start + off |}
+    = (Some (fst (inner_read (range_slice data r_start r_end) 0 off n)),
+       {| r_ipos := r_start + snd (inner_read (range_slice data r_start r_end) 0 off n);
+          r_cur := r_start + snd (inner_read (range_slice data r_start r_end) 0 off n) |}).
+Proof. exact range_read_is_cursor_read_proof. Qed.
+Check range_read_is_cursor_read :
+  forall data r_start r_end n off,
+    rng_read data 0 r_end n {| r_ipos := r_start + off; r_cur := r_start + off |}
+    = (Some (fst (inner_read (range_slice data r_start r_end) 0 off n)),
+       {| r_ipos := r_start + snd (inner_read (range_slice data r_start r_end) 0 off n);
+          r_cur := r_start + snd (inner_read (range_slice data r_start r_end) 0 off n) |}).
+Print Assumptions range_read_is_cursor_read.
+
+(* ... whose stream is the range's bytes *)
+Theorem sbr_over_range_stream :
+  forall data r_start r_end cap,
+    sbr_stream (range_slice data r_start r_end) (sbr_init cap)
+    = take (r_end - r_start) (drop (N.min r_start (nlen data)) data).
+Proof. exact sbr_over_range_stream_proof. Qed.
+Check sbr_over_range_stream :
+  forall data r_start r_end cap,
+    sbr_stream (range_slice data r_start r_end) (sbr_init cap)
+    = take (r_end - r_start) (drop (N.min r_start (nlen data)) data).
+Print Assumptions sbr_over_range_stream.
